@@ -123,7 +123,10 @@ impl FiModel {
         let lo_start = (p.min_idx - 1e-6).floor() as isize - self.low_off + self.hist;
         let hi_start = (p.max_idx + 1e-6).floor() as isize + self.high_start + self.hist;
         let end_ok = if self.strict_end { hi_start + self.width < buflen } else { hi_start + self.width <= buflen };
-        p.t_min > 0.0 && lo_start >= 0 && end_ok && p.n <= p.advertised
+        // every window must also lie inside the frames held for the current chunk (after a
+        // chunk-size reduction the buffer is longer than the valid data)
+        let valid_ok = hi_start + self.width <= self.hist + self.chunk as isize;
+        p.t_min > 0.0 && lo_start >= 0 && end_ok && valid_ok && p.n <= p.advertised
     }
 
     pub fn after_process(&mut self, p: &Pred) {
